@@ -238,6 +238,22 @@ def r02_1(chk, sg, emit=True):
         okret = bool(ret) and ".number" in ret[0].value.key() and "choice=" in ret[0].value.key()
         chk.ob("R02.1", SG, "SpaceGroup.from_symmetry_operations", "a hit returns the setting with the stored number and choice; a miss raises",
                used and okret and any(e.kind == "raise" for e in ev.events), found=str(ret[0].value) if ret else None)
+        # every LATT number -7 .. 7 is accepted for the expansion (the codes of LATTICE_TYPE_TRANSLATIONS, either sign); only others are refused
+        lp = ev.param_names[2] if len(ev.param_names) > 2 else "expand_latt"
+        ex = [e for e in ev.events if e.kind == "call" and (call_name(e.value.as_atom() or ()) or "").endswith("expanded_symmetry_list")]
+        bounds = set()
+        for e in ex:
+            for c, pol in e.guards:
+                ca = c.as_atom()
+                if pol and ca and ca[0] in ("lt", "le") and lp in c.key():
+                    if ca[1].const_value() is not None and ca[2].key() == lp:
+                        bounds.add(("lo", int(ca[1].const_value()) + (1 if ca[0] == "lt" else 0)))
+                    elif ca[2].const_value() is not None and ca[1].key() == lp:
+                        bounds.add(("hi", int(ca[2].const_value()) - (1 if ca[0] == "lt" else 0)))
+        tested = any(lp in c.key() and (c.as_atom() or ("",))[0] in ("lt", "le", "and", "or") for e in ev.events if e.kind == "raise" for c, _ in e.guards)
+        chk.ob("R02.1", SG, "SpaceGroup.from_symmetry_operations", "the expansion is reached for every LATT number -7 .. 7 (a range test, where there is one, "
+               "admits exactly those)", bool(ex) and (bounds == {("lo", -7), ("hi", 7)} or (not tested and not bounds)), fingerprint="latt-range",
+               expected="-8 < expand_latt < 8", found=sorted(bounds))
     return q_sorted and not key_sorted
 
 
@@ -497,6 +513,40 @@ def r02_5(chk, sg, decoded, fidx):
     raises = [e for e in ev.events if e.kind == "raise"]
     rng = any(any("international_tables_number" in c.key() and pol for c, pol in e.guards) for e in raises)
     chk.ob("R02.5", SG, "SpaceGroup.__init__", "numbers outside 1..230 are rejected", rng)
+    npar = ev.param_names[1]
+    cpar = ev.param_names[2] if len(ev.param_names) > 2 else "choice"
+    # ... and only those: the number is refused exactly when it is below 1 or above 230 (either alone suffices; 1 and 230 are groups)
+    exact = False
+    for e in raises:
+        if not e.guards:
+            continue
+        c, pol = e.guards[-1]
+        ca = c.as_atom()
+        parts = list(ca[1]) if ca and ca[0] == "or" else [c]
+        if pol and {x.key() for x in parts} == {f"(lt 230 {npar})", f"(lt {npar} 1)"}:
+            exact = True
+    chk.ob("R02.5", SG, "SpaceGroup.__init__", "a number is refused exactly when it is below 1 or above 230", exact, fingerprint="range-exact",
+           expected=f"raise if {npar} < 1 or {npar} > 230", found=[str(e.guards[-1][0])[:100] for e in raises if e.guards][:1])
+    # the default choice fills in only when the caller gave none (and the number has one)
+    dflt = [e for e in ev.events if e.kind == "assign" and e.value is not None and e.value.key() == f"SG_DEFAULT_SETTING_CHOICE[{npar}]"]
+    okd = bool(dflt) and all(any(c.key() == f"(in {npar} SG_DEFAULT_SETTING_CHOICE)" and pol for c, pol in e.guards)
+                             and any(c.key() == cpar and not pol for c, pol in e.guards) for e in dflt)
+    chk.ob("R02.5", SG, "SpaceGroup.__init__", "the default choice of a number is used only when the caller named no choice (a choice that is given is kept)",
+           okd, fingerprint="default-only-when-none", found=[[f"{'' if p else 'not '}{str(c)[:50]}" for c, p in e.guards][-2:] for e in dflt][:1])
+    # the setting taken: row 0 when no choice is named, otherwise the candidate whose choice EQUALS the one asked for
+    picks = [e for e in ev.events if e.kind == "assign" and e.value is not None and e.value.as_atom() and e.value.as_atom()[0] == "sub"
+             and e.value.as_atom()[1].key() == f"SG_FROM_NUMBER[str({npar})]"]
+    row0 = [e for e in picks if not e.loops and e.value.as_atom()[2][0].const_value() is not None]
+    looped = [e for e in picks if e.loops and any((c.as_atom() or ("",))[0] in ("eq", "ne") for c, _ in e.guards[-1:])]
+    ok0 = bool(row0) and all(e.value.as_atom()[2] == (P.const(0),) for e in row0)
+    okeq = bool(looped)
+    for e in looped:
+        c, pol = e.guards[-1]
+        ca = c.as_atom()
+        okeq = okeq and ca[0] == "eq" and pol and any(x.key() == f"{e.value}.choice" for x in (ca[1], ca[2]))
+    chk.ob("R02.5", SG, "SpaceGroup.__init__", "without a choice the first setting of the number is taken; with one, the setting whose choice equals it",
+           ok0 and okeq, fingerprint="setting-selection", found=f"row-0 picks {[str(e.value)[-12:] for e in row0]}, loop picks under "
+           f"{[('' if e.guards[-1][1] else 'not ') + str(e.guards[-1][0])[:30] for e in looped]}")
     fn = getattr(ev, "fn", None) or sg.func("SpaceGroup.__init__")      # the tree that was evaluated (new helpers expanded)
     forelse = [n for n in ast.walk(fn) if isinstance(n, ast.For) and n.orelse and any(isinstance(s, ast.Raise) for s in n.orelse)]
     chk.ob("R02.5", SG, "SpaceGroup.__init__", "an unknown choice raises (for ... else: raise)", bool(forelse))
